@@ -64,14 +64,20 @@ def leo_ops(tier, rng, seen):
         pairs = sorted(set(keep))
     for (d, p) in pairs:
         ops.append((f"gen leo8 {d} {p}" + (" dump" if d * p <= 64 else ""), {"cat": "leo8", "fam": "leo8", "d": d, "p": p}))
-    for (d, p) in [(2, 2), (3, 2), (5, 3), (8, 8), (10, 4), (257, 3), (300, 40)] + [(rng.randint(2, 100), rng.randint(2, 50)) for _ in range(20)]:
+    extra16 = [(rng.randint(2, 100), rng.randint(2, 50)) for _ in range(20 if tier == "quick" else 400)]
+    if tier == "thorough":
+        extra16 += [(d, p) for d in range(1, 13) for p in range(1, 13)] + [(1000, 64), (2000, 30), (40, 1000), (65000, 2), (3, 400)]
+    for (d, p) in [(1, 1), (2, 2), (3, 2), (5, 3), (8, 8), (10, 4), (257, 3), (300, 40), (254, 2), (2, 254), (1, 300)] + extra16:
         ops.append((f"gen leo16 {d} {p}", {"cat": "leo16", "fam": "leo16", "d": d, "p": p}))
     return ops
 
 
 def flag_check(line, meta, flags):
     if meta.get("fam") == "leo16":
-        # no GF(2^16) field in Lean: decided by the Lagrange closed form (l0) and by C05's reconstruction runs only
+        # GF(2^16): the proved certificate (C01_leo16_cert over the proved field GF65536) where the generator is small
+        # enough to run it ('-' above 400,000 entries), and the Lagrange closed form (l0)
+        if flags.get("cert") == "0":
+            return "GF(2^16) certificate rejected the generator: not shown to be MDS"
         return "L1 schedule disagrees with the Lagrange closed form" if flags.get("l0") == "0" else None
     if flags.get("cert") != "1":
         return "certificate rejected the generator: not shown to be MDS"
